@@ -75,6 +75,11 @@ def _fit2(p):
     return [float(n_nodes(p) % 4), float(len(repr(sstruct(p))) % 3)]
 
 
+def _fit2nan(p):
+    """as _fit2, but some programs have an undefined second component (e.g. a division by zero inside the fitness function)"""
+    return [float(n_nodes(p) % 4), float("nan") if n_nodes(p) % 3 == 0 else float(len(repr(sstruct(p))) % 3)]
+
+
 class _Found:
     def __init__(self):
         self.d = {}
@@ -312,10 +317,10 @@ def _population(rep, src, problem, evaluator, size):
     return pop
 
 
-def _step_case(kind, gname, gdesc, grammar, text, factory, leaf_names, outer, multi, run_seed, found, stats, leaf_keys):
+def _step_case(kind, gname, gdesc, grammar, text, factory, leaf_names, outer, multi, run_seed, found, stats, leaf_keys, nan=False):
     src = NativeRandomSource(run_seed)
     rep = make_rep(kind, grammar, src, gene_length=12)
-    problem = MultiObjectiveProblem([False, True], _fit2) if multi else SingleObjectiveProblem(_fit1)
+    problem = MultiObjectiveProblem([False, True], _fit2nan if nan else _fit2) if multi else SingleObjectiveProblem(_fit1)
     evaluator = SequentialEvaluator()
     try:
         pop = _population(rep, src, problem, evaluator, 7)
@@ -593,6 +598,10 @@ def run(tier: str, seed: int) -> dict:
                 for (gname, classes, start, refined, gdesc) in gsel:
                     guarded(f"step {kind}", _step_case, kind, gname, gdesc, extract_grammar(classes, start), text, factory, leaf_names, outer, multi, seed * 1009 + ci, found, stats, leaf_keys)
                     n3 += 1
+                    if multi:
+                        # the same case with fitness vectors that contain undefined (NaN) components
+                        guarded(f"step {kind} (NaN components)", _step_case, kind, gname, gdesc, extract_grammar(classes, start), text, factory, leaf_names, outer, multi, seed * 1009 + ci, found, stats, leaf_keys, True)
+                        n3 += 1
     parts["step_cases"] = n3
 
     # 4. generations
@@ -623,7 +632,7 @@ def run(tier: str, seed: int) -> dict:
         "sampled: (1) 15-operation mutate/crossover/map chains, 5 representations x 11 grammars x seeds, all earlier genotypes compared after every operation; "
         "(2) ListSizeBetween/StringSizeBetween mutate+crossover through treebased.mutate and directly, whole input trees compared; "
         "(3) 11 leaf steps and Sequence/Parallel/ExclusiveParallel nestings of depth 2 and 3 (sampled) on 7-individual populations mixing evaluated, phenotype-only and "
-        "fresh individuals, single- and two-objective problems; inputs compared after the step and after the offspring were evaluated, mutated and crossed over; "
+        "fresh individuals, single- and two-objective problems (the latter also with NaN components); inputs compared after the step and after the offspring were evaluated, mutated and crossed over; "
         "(4) GeneticProgramming.search with the default step, population 10, 5 generations, every earlier generation compared whenever a new one is built. "
         "Deep snapshots: fields, genes, gengy_* metadata, stored contexts, cached phenotype, fitness_store."
     )
